@@ -58,7 +58,7 @@ def run_conditions(module_text, functions, timeout_s=30, extra_path=()):
 
 def parse_counterexample(message):
     """'... when calling f("2-")' -> the argument text"""
-    m = re.search(r'when calling \w+\((.*)\)', message)
+    m = re.search(r'when calling \w+\((.*?)\) \(which ', message) or re.search(r'when calling \w+\((.*)\)', message)
     return m.group(1) if m else None
 
 
